@@ -97,3 +97,83 @@ def wf(ir, check_typ_parses=True, source_text=None):
         if d:
             return d
     return ""
+
+
+# ------------------------------------------------------------------------------------- IR comparison (C01-C08)
+def norm_doc(s):
+    """descriptions are compared up to surrounding whitespace and one terminal full stop"""
+    if s is None:
+        return ""
+    s = s.strip()
+    if s.endswith("."):
+        s = s[:-1].rstrip()
+    return s
+
+
+NONE_STRS = ("None", "```(None)```", "```None```")
+
+
+def same_default(a, b):
+    """same value AND same Python type; None == NoneStr; a str is compared modulo one layer of quotes (pure_utils.quote/unquote)"""
+    a_none = a is None or (isinstance(a, str) and (a == NONE_STRS[0] or a == NONE_STRS[1] or a == NONE_STRS[2]))
+    b_none = b is None or (isinstance(b, str) and (b == NONE_STRS[0] or b == NONE_STRS[1] or b == NONE_STRS[2]))
+    if a_none or b_none:
+        return a_none and b_none
+    if isinstance(a, bool) or isinstance(b, bool):
+        return isinstance(a, bool) and isinstance(b, bool) and a == b
+    if isinstance(a, str) and isinstance(b, str):
+        return a == b or _unq(a) == _unq(b)
+    if type(a) is not type(b) and not (isinstance(a, int) and isinstance(b, int)) and not (isinstance(a, float) and isinstance(b, float)):
+        return False
+    return a == b
+
+
+def _unq(s):
+    if len(s) > 1 and ((s.startswith('"') and s.endswith('"')) or (s.startswith("'") and s.endswith("'"))):
+        return s[1:-1]
+    return s
+
+
+def entry_equiv(where, a, b, types=True, defaults=True, docs=True, typ_may_be_inferred=False):
+    """a = original entry, b = entry after the round trip; "" when equivalent"""
+    if docs and norm_doc(a.get("doc")) != norm_doc(b.get("doc")):
+        return "%s: description changed: %r -> %r" % (where, a.get("doc"), b.get("doc"))
+    if types:
+        if a.get("typ") != b.get("typ"):
+            inferred = a.get("typ") is None and "default" in a and b.get("typ") == type(a["default"]).__name__
+            if not inferred:  # an absent type may be inferred from the default (listed normalisation)
+                return "%s: type changed: %r -> %r" % (where, a.get("typ"), b.get("typ"))
+    elif b.get("typ") is not None and b.get("typ") != a.get("typ") and not typ_may_be_inferred:
+        return "%s: a type appeared that is not the original: %r (original %r)" % (where, b.get("typ"), a.get("typ"))
+    if defaults:
+        if ("default" in a) != ("default" in b):
+            return "%s: default %s" % (where, "lost" if "default" in a else "invented: %r" % (b.get("default"),))
+        if "default" in a and not same_default(a["default"], b["default"]):
+            return "%s: default changed: %r (%s) -> %r (%s)" % (where, a["default"], type(a["default"]).__name__, b["default"], type(b["default"]).__name__)
+    return ""
+
+
+def ir_equiv(a, b, types=True, defaults=True, docs=True, header=True, typ_may_be_inferred=False, returns=True):
+    ka, kb = list(a["params"].keys()), list(b["params"].keys())
+    if len(ka) != len(kb):
+        return "number of parameters changed: %r -> %r" % (ka, kb)
+    for x, y in zip(ka, kb):
+        if x != y:
+            return "parameter names/order changed: %r -> %r" % (ka, kb)
+    for k in ka:
+        d = entry_equiv("param %s" % k, a["params"][k], b["params"][k], types, defaults, docs, typ_may_be_inferred)
+        if d:
+            return d
+    if returns:
+        ra, rb = a.get("returns"), b.get("returns")
+        ha = bool(ra) and "return_type" in ra
+        hb = bool(rb) and "return_type" in rb
+        if ha != hb:
+            return "return entry %s" % ("lost" if ha else "invented: %r" % (dict(rb),))
+        if ha:
+            d = entry_equiv("return", ra["return_type"], rb["return_type"], types, defaults, docs, typ_may_be_inferred)
+            if d:
+                return d
+    if header and norm_doc(a.get("doc")) != norm_doc(b.get("doc")):
+        return "prose description changed: %r -> %r" % (a.get("doc"), b.get("doc"))
+    return ""
